@@ -32,7 +32,8 @@ CONSTANTS
     MaxCloses,      \* connection ends per behaviour
     EnUnsub, EnPing, EnDisconnect, EnStale    \* feature switches (BOOLEAN)
 
-Ev(kind, id, arg) == [kind |-> kind, id |-> id, arg |-> arg]
+\* src: the net whose link sent the event (ghost, for the isolation properties)
+Ev(kind, id, arg, src) == [kind |-> kind, id |-> id, arg |-> arg, src |-> src]
 
 GInit ==
     [npub |-> 0, nsub |-> 0, nclose |-> 0,
@@ -156,7 +157,7 @@ RConsume ==
 NConnect(n) ==
     /\ nets[n].phase = "idle"
     /\ nets' = [nets EXCEPT ![n].phase = "connecting"]
-    /\ chan' = Append(chan, Ev("Connect", 0, n))
+    /\ chan' = Append(chan, Ev("Connect", 0, n, n))
     /\ UNCHANGED <<R, G>>
 
 \* second half: the doorbell rang, the CONNACK is taken out of the buffer; or the router dropped the event
@@ -172,7 +173,7 @@ NFinish(n) ==
 Push(n, p) ==
     /\ nets[n].phase = "up"
     /\ nets' = [nets EXCEPT ![n].ibuf = Append(@, p)]
-    /\ chan' = Append(chan, Ev("DeviceData", nets[n].id, 0))
+    /\ chan' = Append(chan, Ev("DeviceData", nets[n].id, 0, n))
     /\ UNCHANGED R
 
 \* the link takes everything out of the outgoing buffer (all tokens); Ready if an Unschedule was inside
@@ -183,7 +184,7 @@ NDrain(n) ==
            rel == SelectSeq(out, LAMBDA x : x.t = "ack" /\ x.kind = "pubrel")
        IN
        /\ nets' = [nets EXCEPT ![n].obuf = <<>>, ![n].tokens = 0]
-       /\ chan' = IF \E i \in 1..Len(out) : out[i].t = "unschedule" THEN Append(chan, Ev("Ready", nets[n].id, 0)) ELSE chan
+       /\ chan' = IF \E i \in 1..Len(out) : out[i].t = "unschedule" THEN Append(chan, Ev("Ready", nets[n].id, 0, n)) ELSE chan
        /\ G' = [G EXCEPT !.toAck[n] = @ \o [i \in 1..Len(fw) |-> <<fw[i].id, fw[i].q>>],
                          !.toComp[n] = @ \o [i \in 1..Len(rel) |-> rel[i].id]]
     /\ UNCHANGED R
@@ -192,15 +193,15 @@ NDrain(n) ==
 NClose(n) ==
     /\ nets[n].phase = "up" /\ G.nclose < MaxCloses
     /\ nets' = [nets EXCEPT ![n].phase = "closed"]        \* the link (and its doorbell receiver) is dropped: no further rings
-    /\ chan' = Append(chan, Ev("Disconnect", nets[n].id, 0))
-    /\ G' = [G EXCEPT !.nclose = @ + 1, !.toAck[n] = <<>>, !.toComp[n] = <<>>, !.toRel[n] = <<>>, !.owed[n] = <<>>]
+    /\ chan' = Append(chan, Ev("Disconnect", nets[n].id, 0, n))
+    /\ G' = [G EXCEPT !.nclose = @ + 1, !.toAck[n] = <<>>, !.toComp[n] = <<>>, !.toRel[n] = <<>>]
     /\ UNCHANGED R
 
 \* after the will delay the link asks for the will to be published
 NWill(n) ==
     /\ nets[n].phase = "closed" /\ NetWill[n] # NOMSG
     /\ nets' = [nets EXCEPT ![n].phase = "done"]
-    /\ chan' = Append(chan, Ev("PublishWill", nets[n].id, nets[n].cid))
+    /\ chan' = Append(chan, Ev("PublishWill", nets[n].id, nets[n].cid, n))
     /\ UNCHANGED <<R, G>>
 
 ---------------------------------------------------------------------------
@@ -328,6 +329,26 @@ InflightIdsValid == \A i \in LiveIds : \A a \in 1..Len(R.conns[i].inflight) :
 
 \* the link is always told about data in its buffer
 DoorbellSound == \A n \in Nets : (nets[n].obuf # <<>> /\ nets[n].held) => nets[n].tokens > 0
+
+\* C09 / C14: a step of the router removes (or replaces) a connection only on behalf of that connection's own link
+\* (its packets, its Disconnect) or of a new connection with the same client id
+Gone(i) == R.conns[i].live /\ (~R'.conns[i].live \/ R'.conns[i].net # R.conns[i].net)
+OnlyOwnRemovalStep ==
+    \A i \in Ids : Gone(i) =>
+          /\ chan # <<>> /\ chan' = Tail(chan)
+          /\ LET e == Head(chan) IN
+             \/ (e.kind \in {"DeviceData", "Disconnect"} /\ e.id = i /\ e.src = R.conns[i].net)
+             \/ (e.kind = "Connect" /\ nets[e.arg].cid = R.conns[i].cid)
+OnlyOwnRemoval == [][OnlyOwnRemovalStep]_vars
+\* C09: handling the packets of one connection (e.g. an acknowledgement nobody solicited) closes at most that connection
+AckClosesOnlyThatStep ==
+    \A i \in Ids : (Gone(i) /\ chan # <<>> /\ Head(chan).kind = "DeviceData") => Head(chan).id = i
+AckClosesOnlyThat == [][AckClosesOnlyThatStep]_vars
+\* C14: an event sent by the link of a connection that has ended never acts on a later connection.
+\* kinds: the event kinds for which this is demanded
+NoCrossGenerationStep(kinds) ==
+    \A i \in Ids : (Gone(i) /\ chan # <<>> /\ Head(chan).kind \in kinds) => Head(chan).src = R.conns[i].net
+NoCrossGeneration == [][NoCrossGenerationStep({"DeviceData", "Disconnect", "Ready", "PublishWill"})]_vars
 
 \* nothing can happen any more without a new stimulus from a client
 RouterIdle == chan = <<>> /\ (\A k \in 1..Len(R.readyq) : ~Live(R, R.readyq[k]))
